@@ -59,6 +59,11 @@ type Node struct {
 	LatencyMs int `json:"latency_ms,omitempty"`
 	// redirect: a header line so long that the text "Location: <next>" stands at this offset of it (0: no such line)
 	LongLoc int `json:"long_loc,omitempty"`
+	// Empty: the peer reads the request and closes without sending a byte
+	Empty bool `json:"empty,omitempty"`
+	// Claim > 0: the (well-formed) document served here states as its id the address of node Claim-1 on the same
+	// host. What a document says about itself is no reason to hand it out for that other address.
+	Claim int `json:"claim,omitempty"`
 }
 
 type Fetch struct {
@@ -141,6 +146,9 @@ func rawOf(c Case, n Node, prefix string) string {
 		b.WriteString("Content-Type: text/html\r\n\r\n<a>moved</a>")
 		return b.String()
 	}
+	if n.Empty {
+		return ""
+	}
 	var b strings.Builder
 	b.WriteString(n.Status.Text)
 	for _, h := range n.Headers {
@@ -149,12 +157,24 @@ func rawOf(c Case, n Node, prefix string) string {
 	if !n.NoBlank {
 		b.WriteString(n.EOL)
 	}
-	b.WriteString(n.Body.Text)
+	b.WriteString(bodyText(c, n, prefix))
 	return b.String()
+}
+
+// bodyText is the body of a final node as served
+func bodyText(c Case, n Node, prefix string) string {
+	if n.Claim > 0 && n.Claim <= len(c.Nodes) {
+		to := c.Nodes[n.Claim-1]
+		return `{"id":"https://%H` + fmt.Sprint(to.Host) + `%` + to.target(prefix) + `","type":"Note","name":"` + n.Name + `"}`
+	}
+	return n.Body.Text
 }
 
 // verdict of a final node for an accept profile, from the parts' labels.
 func finalVerdict(n Node, profile string) string {
+	if n.Empty {
+		return "err"
+	}
 	worst := "ok"
 	note := func(v string) {
 		if v == "err" || (v == "may" && worst == "ok") {
@@ -257,7 +277,7 @@ func judge(c Case, f Fetch, prefix string, what string, doc map[string]any, sour
 	case "doc":
 		fin := c.Nodes[exp.final]
 		var want map[string]any
-		json.Unmarshal([]byte(sim.Expand(fin.Body.Text, fin.Host, prefix)), &want)
+		json.Unmarshal([]byte(sim.Expand(bodyText(c, fin, prefix), fin.Host, prefix)), &want)
 		wantSource := sim.URL(fin.Host, fin.target(prefix))
 		if gerr != nil {
 			return fmt.Errorf("%s must yield the document but failed: %v\nresponse: %q", what, gerr, clip(rawOf(c, fin, prefix)))
@@ -461,7 +481,7 @@ func check(c Case) vrep.Result {
 		case "doc":
 			fin := c.Nodes[exp.final]
 			var want map[string]any
-			json.Unmarshal([]byte(sim.Expand(fin.Body.Text, fin.Host, prefix)), &want)
+			json.Unmarshal([]byte(sim.Expand(bodyText(c, fin, prefix), fin.Host, prefix)), &want)
 			wantSource := sim.URL(fin.Host, fin.target(prefix))
 			if gerr != nil {
 				return vrep.Result{Classes: classes, Err: fmt.Errorf("%s must yield the document but failed: %v\nresponse: %q", what, gerr, clip(rawOf(c, fin, prefix)))}
@@ -650,6 +670,20 @@ func genWorld(t *rapid.T, maxNodes int) []Node {
 			continue
 		}
 		genFinal(t, n)
+		if rapid.SampledFrom([]int{0, 0, 0, 0, 0, 0, 0, 0, 0, 1}).Draw(t, "emptyreply") == 1 {
+			n.Empty = true
+		}
+	}
+	// some well-formed documents claim the address of another node of their host as their id
+	for i := range nodes {
+		n := &nodes[i]
+		if n.Redirect || n.Empty || n.Body.Verdict != "ok" || nn < 2 || rapid.SampledFrom([]int{0, 0, 0, 1}).Draw(t, "claims") == 0 {
+			continue
+		}
+		k := rapid.IntRange(0, nn-1).Draw(t, "claimed")
+		if k != i && nodes[k].Host == n.Host {
+			n.Claim = k + 1
+		}
 	}
 	// make relative forms sound: "rel"/"path" need the same host, "query" the same host, dir and name
 	for i := range nodes {
